@@ -11,7 +11,7 @@ AGG = {'FastOr', 'HeapOr', 'ParOr', 'ParHeapOr', 'FastAnd', 'ParAnd', 'HeapXor',
 TRF = {'FlipS', 'AddOffset', 'DenseRT', 'BitSetRT'}
 
 
-SER = {'Ser', 'Load', 'WriteFail', 'Freeze', 'FrozenRT', 'LoadLegal', 'DetachAll', 'Scribble'}
+SER = {'Ser', 'Load', 'WriteFail', 'Freeze', 'FrozenRT', 'LoadLegal', 'DetachAll', 'Scribble', 'Ser64', 'Load64'}
 C05_CLAUSES = {'write-error', 'size-mismatch', 'returned-count', 'writers-differ', 'end-of-stream', 'read-error', 'bytes-consumed',
                'reader-position', 'failed-writer-not-reported', 'returned-more-than-written'}
 C06_CLAUSES = {'parse', 'cookie', 'offset-header-presence', 'chunk-count', 'keys', 'payload-order', 'cardinality-field',
@@ -20,6 +20,8 @@ C06_CLAUSES = {'parse', 'cookie', 'offset-header-presence', 'chunk-count', 'keys
 
 def serial_family(v):
     op, c, d = v['op'], v['clause'], v.get('detail')
+    if op in ('Ser64', 'Load64'):
+        return 'C18'
     if op in ('Freeze', 'FrozenRT'):
         return 'C13'
     if op == 'LoadLegal':
@@ -52,12 +54,27 @@ def family(op):
     return None
 
 
+BITS64 = False
+
+
 def attribute(v):
     """Which property a recorded deviation belongs to (None = latent/structural, not a verdict)."""
+    p = attribute32(v)
+    if BITS64 and p is not None and p != 'C18':
+        # the 64-bit bitmap: everything except serialization is C17 (sharing defects also count for C07, which names the 64-bit counterparts)
+        return 'C17+C07' if p == 'C07' else 'C17'
+    return p
+
+
+def attribute32(v):
     c, op = v['clause'], v['op']
     if c in ('content', 'result', 'panic', 'listing', 'not-a-union-of-atoms', 'aux'):
         if op in SER:
             return serial_family(v)
+        if c == 'panic' and isinstance(v.get('detail'), str) and v['detail'].startswith('hang'):
+            return 'C12'
+        if op in ('ParOr', 'ParAnd', 'ParHeapOr'):
+            return 'C11+C12'
         return family(op)
     if c == 'interference':
         if op in QRY or op in NBR:
@@ -71,6 +88,8 @@ def attribute(v):
         return 'C09'
     if c.startswith('size-'):
         return 'C14'
+    if c == 'goroutine-leak':
+        return 'C12'
     if c == 'caller-buffer-written':
         return 'C16' if op == 'DenseRT' else 'C08'
     return None
@@ -91,7 +110,7 @@ REQUIRED_OPS = {
     'C02': ['Add', 'CheckedAdd', 'AddInt', 'AddMany', 'Remove', 'CheckedRemove', 'AddRange', 'RemoveRange', 'Flip', 'Clear',
             'RunOptimize', 'Clone', 'Detach', 'SetCOW'],
     'C03': ['Card', 'IsEmpty', 'Contains', 'Min', 'Max', 'Rank', 'Select', 'CardInRange', 'IntersectsInterval', 'Equals', 'ToArray',
-            'ChecksumEq', 'ChecksumRT'],
+            'ChecksumRT'],
     'C15': ['NextValue', 'PreviousValue', 'NextAbsentValue', 'PreviousAbsentValue'],
     'C11': ['FastOr', 'HeapOr', 'ParOr', 'ParHeapOr', 'FastAnd', 'ParAnd', 'HeapXor', 'AndAny'],
     'C16': ['FlipS', 'AddOffset', 'DenseRT', 'BitSetRT'],
@@ -188,11 +207,11 @@ def c15(tier):
 def c11(tier):
     q = tier == 'quick'
     return {
-        'rule': 'model: all triples of subsets of 4 atoms x every list (length 0..3, duplicates, an empty member) x 8 aggregates (exhaustive, TLC); replayed with chunk keys placed at the bottom, middle and top of the key space; plus randomized traces with worker counts 0,1,2,3,5,16',
+        'rule': 'model: all pairs of subsets of 4 atoms (+ a full and an empty bitmap) x every list (length 0..3, duplicates, an empty member) x 8 aggregates (exhaustive, TLC); replayed with chunk keys placed at the bottom, middle and top of the key space; plus randomized traces with worker counts 0,1,2,3,5,16',
         'assumptions': ASSUME_SET,
         'phases': [
             {'kind': 'replay', 'model': M('agg_S4', 'agg', 'S4', maxlist=3), 'kinds': ['tiny', 'array', 'bitmap', 'run', 'chunky', 'top', 'mixed', 'keyspread'],
-             'sample': 0.003 if q else 0.06},
+             'sample': 0.04 if q else 0.8},
             {'kind': 'drive', 'profile': 'aggregate', 'traces': 160 if q else 3000, 'steps': 40},
         ],
     }
@@ -300,4 +319,85 @@ def c08(tier):
     }
 
 
-PLANS = {'C05': c05, 'C06': c06, 'C13': c13, 'C08': c08, 'C01': c01, 'C02': c02, 'C03': c03, 'C15': c15, 'C11': c11, 'C16': c16, 'C07': c07, 'C09': c09, 'C14': c14}
+def par_cfg(pipeline, nw, lk=0, hk=3, fw='FALSE', items='I0', capa=2, capb=1, sweep=False):
+    inv = 'NoSendOnClosed NoDuplicateResult AllCollected' + (' SweepInit' if sweep else ' PartitionExact')
+    return ('SPECIFICATION Spec\nCONSTANTS\n  Pipeline = "%s"\n  NW = %d\n  KBITS = 4\n  LK = %d\n  HK = %d\n  FixedWidth = %s\n'
+            '  CapA = %d\n  CapB = %d\n  Items <- %s\nINVARIANT %s\nPROPERTY Termination NoLeak\n') % (pipeline, nw, lk, hk, fw, capa, capb, items, inv)
+
+
+def PM(name, **kw):
+    return {'name': name, 'module': 'MCParAgg.tla', 'cfg_text': par_cfg(**kw), 'workers': 2, 'deps': ('ParAgg.tla',)}
+
+
+def sweep_to_scripts(obj):
+    """TLC's counterexamples to PartitionExact under the pinned code's fixed-width arithmetic (4-bit keys)
+    become 16-bit scripts: 4-bit key k -> chunk key 65520+k (top-aligned so that the wrap coincides)."""
+    out = []
+    for lk, hk, nw in obj.get('bad', []):
+        n = hk - lk + 1
+        cells = list(range(1, n + 1))
+        st = {'percell': [1] * n, 'point': [False] * n}
+        builds = [{'op': 'Build', 'dst': 1, 'as': [c for c in cells if c % 2 == 1], 'rcp': 'R'},
+                  {'op': 'Build', 'dst': 2, 'as': [c for c in cells if c % 2 == 0], 'rcp': 'Ro'},
+                  {'op': 'Build', 'dst': 3, 'as': [cells[0], cells[-1]], 'rcp': 'R'}]
+        for op in ('ParOr',):
+            out.append({'st': 'K%d' % n, 'struct': st, 'kind': 'chunks', 'base': 65520 + lk,
+                        'calls': builds + [{'op': op, 'dst': 4, 'xs': [1, 2, 3], 'w': nw}, {'op': op, 'dst': 5, 'xs': [2, 1], 'w': nw}]})
+    return out
+
+
+def par_models():
+    ms = [PM('parsweep', pipeline='ParOr', nw=1, fw='TRUE', sweep=True)]
+    ms[0]['post'] = sweep_to_scripts
+    for nw, lk, hk in ((1, 0, 3), (2, 2, 10), (3, 0, 15), (1, 7, 15), (2, 0, 1)):
+        ms.append(PM('paror_w%d_%d_%d' % (nw, lk, hk), pipeline='ParOr', nw=nw, lk=lk, hk=hk))
+    for nw, it in ((1, 'I5'), (2, 'I3'), (2, 'I4'), (3, 'I5'), (2, 'I0'), (1, 'I1'), (3, 'I2')):
+        ms.append(PM('heap_w%d_%s' % (nw, it), pipeline='Heap', nw=nw, items=it))
+    return ms
+
+
+def c12(tier):
+    q = tier == 'quick'
+    ms = par_models()
+    return {
+        'rule': 'ParAgg.tla (PlusCal transcription of the ParOr and ParHeapOr/ParAnd pipelines): all interleavings for 1..3 workers, scaled channel capacities, item lists incl. zero items and more items than capacity: no deadlock, termination, no send on closed channel, every index collected once, key ranges partition [lKey,hKey]; parameter sweep of the partition arithmetic with the pinned fixed-width conversion -> counterexamples concretised at 16 bits and run on the real ParOr; real Par* calls under the race detector with worker counts 0,1,2,3,5,16 and GOMAXPROCS 1,2,4,16: result = fold (TraceSet), goroutine census, watchdog',
+        'assumptions': ASSUME_SET + ['race freedom and absence of leaks are observed on the schedules the Go runtime produced in this run, not proved for all schedules; the protocol-level proof is about ParAgg.tla as transcribed'],
+        'race': True,
+        'models': ms[1:],
+        'phases': [
+            {'kind': 'replay', 'model': ms[0], 'kinds': ['chunks'], 'sample': 1.0, 'shards': 4},
+            {'kind': 'drive', 'profile': 'parallel', 'traces': 64 if q else 800, 'steps': 40, 'shards': 8, 'gomaxprocs': [1, 2, 4, 16]},
+        ],
+    }
+
+
+def c17(tier):
+    q = tier == 'quick'
+    B = ['-bits', '64']
+    return {
+        'rule': 'the RoaringSet specification instantiated at 2^64: TLC models (pairs of subsets x binary algebra; every mutation/query call from every subset-state; simulated histories; aggregates) replayed on roaring64 under concretisations placed inside a bucket, straddling a 2^32 boundary, in bucket 0 and in bucket 0xFFFFFFFF; plus randomized real-scale 64-bit traces',
+        'assumptions': ASSUME_SET + ['ranges are kept below 2^27 integers wide (a 64-bit range call materialises every chunk it covers)'],
+        'phases': [
+            {'kind': 'replay', 'model': M('pairs_S6', 'pairs', 'S6'), 'kinds': ['tiny', 'array', 'threshold', 'bitmap', 'run', 'chunky', 'top', 'mixed'], 'sample': 0.002 if q else 0.04, 'extra': B},
+            {'kind': 'replay', 'model': M('step_S7', 'step', 'S7'), 'kinds': ['tiny', 'array', 'threshold', 'bitmap', 'run', 'chunky', 'top', 'mixed'], 'sample': 0.015 if q else 0.4, 'extra': B},
+            {'kind': 'replay', 'model': M('hist_S7', 'hist', 'S7', depth=12, sim={'num': 300 if q else 6000, 'depth': 13, 'seed': 7}),
+             'kinds': ['tiny', 'array', 'threshold', 'run', 'chunky', 'top', 'mixed'], 'sample': 0.15 if q else 0.5, 'extra': B},
+            {'kind': 'replay', 'model': M('agg_S4', 'agg', 'S4', maxlist=3), 'kinds': ['tiny', 'array', 'run', 'chunky', 'top', 'mixed'], 'sample': 0.01 if q else 0.3, 'extra': B},
+            {'kind': 'drive', 'profile': 'all64', 'traces': 200 if q else 4000, 'steps': 50, 'extra': B},
+        ],
+    }
+
+
+def c18(tier):
+    q = tier == 'quick'
+    B = ['-bits', '64']
+    return {
+        'rule': 'roaring64 bitmaps from arbitrary histories serialized by the four writers and read back by the four entry points (chunked readers, fresh/reused receiver): Equal (projection), byte accounting, exact consumption, Validate before/after; truncations and header corruptions in a child process with a memory limit (decode64 command)',
+        'assumptions': ASSUME_SET,
+        'phases': [
+            {'kind': 'drive', 'profile': 'serial64', 'traces': 160 if q else 3000, 'steps': 40, 'extra': B},
+        ],
+    }
+
+
+PLANS = {'C12': c12, 'C17': c17, 'C18': c18, 'C05': c05, 'C06': c06, 'C13': c13, 'C08': c08, 'C01': c01, 'C02': c02, 'C03': c03, 'C15': c15, 'C11': c11, 'C16': c16, 'C07': c07, 'C09': c09, 'C14': c14}
